@@ -38,7 +38,7 @@ META = {
     'level_note': 'history model in this module is trusted; rsync and the '
                   'filesystem are part of the trusted base',
     'design_ref': 'DESIGN.md §5 C48',
-    'budget': {'quick': 150, 'thorough': 900},
+    'budget': {'quick': 120, 'thorough': 900},
 }
 RULE = ('case = one history (list of operation descriptors); distinct by '
         'the executed operation list; non-trivial when it contains >= 3 '
@@ -60,17 +60,23 @@ ASSUMPTIONS = [
     'operations so one operation does not append to the previous run\'s '
     'install log',
     'only operations named by the property are generated (no manual rm)',
+    'the rsync subprocess of install/reinstall is replaced, in 31 of 32 '
+    'histories, by an in-process copy with the same semantics for the '
+    'options cylc passes (-a, anchored --exclude, --delete, --dry-run); '
+    'every 32nd history uses the real rsync (spawning rsync costs ~0.3 s '
+    'CPU here); copying itself is not what the property is about',
     'symlink-dir histories pass --symlink-dirs style configuration to every '
     'install of that history',
 ]
 MIN = {
-    'numbering_checks': 800, 'runN_checks': 2000,
-    'install_after_clean_latest': 150, 'install_after_clean_older': 50,
-    'overwrite_attempts': 40, 'preexisting_run_dirs_compared': 2000,
-    'reinstall_ok': 120, 'clean_removed_run': 350,
+    'numbering_checks': 2500, 'runN_checks': 7000,
+    'install_after_clean_latest': 500, 'install_after_clean_older': 150,
+    'overwrite_attempts': 120, 'preexisting_run_dirs_compared': 7000,
+    'reinstall_ok': 400, 'clean_removed_run': 1200,
+    'histories_real_rsync': 30,
 }
 CASE_TIMEOUT = 120
-NCASES = {'quick': 480, 'thorough': 8000}
+NCASES = {'quick': 1600, 'thorough': 40000}
 
 
 def ncases(tier):
@@ -90,6 +96,7 @@ def setup_shard(ctx):
     import cylc.flow.install  # noqa: F401
     import cylc.flow.scripts.clean  # noqa: F401
     logging.getLogger('cylc').setLevel(logging.CRITICAL)
+    FakeRsyncPopen.real = cylc.flow.install.Popen
 
 
 # ---------------------------------------------------------------------------
@@ -182,6 +189,118 @@ def diff_fp(a, b, limit=6):
 
 
 # ---------------------------------------------------------------------------
+# in-process stand-in for the rsync subprocess
+#
+# Spawning rsync costs ~0.3 s of CPU per call in this sandbox (three
+# processes), which would cap a quick run at a few hundred installs.  The
+# property is about numbering / runN / not overwriting, not about rsync, so
+# most histories copy with this stand-in (same semantics for the options
+# cylc passes: -a, anchored --exclude=/name, --delete, --dry-run) and a
+# fixed fraction of histories keep the real rsync as a cross-check.
+
+
+def _fake_rsync(cmd):
+    opts, src, dst = cmd[1:-2], cmd[-2], cmd[-1]
+    delete = '--delete' in opts
+    dry = '--dry-run' in opts
+    excludes = set()
+    for o in opts:
+        if o.startswith('--exclude='):
+            pat = o[len('--exclude='):]
+            if not pat.startswith('/') or any(c in pat for c in '*?['):
+                raise NotImplementedError(o)
+            excludes.add(pat[1:])
+        elif o.startswith(('--exclude-from', '--include', '--filter')):
+            raise NotImplementedError(o)
+    out = []
+
+    def rm(p):
+        if os.path.islink(p) or not os.path.isdir(p):
+            os.unlink(p)
+        else:
+            shutil.rmtree(p)
+
+    def sync(s, d, rel):
+        names = sorted(os.listdir(s))
+        for n in names:
+            if not rel and n in excludes:
+                continue
+            sp, dp, r = os.path.join(s, n), os.path.join(d, n), rel + n
+            if os.path.islink(sp):
+                t = os.readlink(sp)
+                if not (os.path.islink(dp) and os.readlink(dp) == t):
+                    out.append(f'send {r} -> {t}')
+                    if not dry:
+                        if os.path.lexists(dp):
+                            rm(dp)
+                        os.symlink(t, dp)
+            elif os.path.isdir(sp):
+                if os.path.islink(dp) or (
+                        os.path.lexists(dp) and not os.path.isdir(dp)):
+                    if not dry:
+                        rm(dp)
+                if not os.path.isdir(dp):
+                    out.append(f'send {r}/')
+                    if dry:
+                        continue
+                    os.mkdir(dp)
+                    shutil.copystat(sp, dp)
+                sync(sp, dp, r + '/')
+            else:
+                same = False
+                if os.path.isfile(dp) and not os.path.islink(dp):
+                    with open(sp, 'rb') as a, open(dp, 'rb') as b:
+                        same = a.read() == b.read()
+                if not same:
+                    out.append(f'send {r}')
+                    if not dry:
+                        if os.path.lexists(dp):
+                            rm(dp)
+                        shutil.copy2(sp, dp)
+        if delete:
+            for n in sorted(os.listdir(d)):
+                if not rel and n in excludes:
+                    continue
+                if n not in names:
+                    out.append(f'del. {rel}{n}')
+                    if not dry:
+                        rm(os.path.join(d, n))
+
+    src = src.rstrip('/')
+    dst = dst.rstrip('/')
+    if not os.path.isdir(dst):
+        os.makedirs(dst)
+    sync(src, dst, '')
+    return '\n'.join(out) + ('\n' if out else '')
+
+
+class FakeRsyncPopen:
+    """Popen look-alike for the two rsync calls in cylc.flow.install."""
+
+    real = None
+
+    def __init__(self, cmd, *args, **kwargs):
+        self.cmd = list(cmd)
+        self.returncode = None
+        self._fallback = None
+        self._kw = (args, kwargs)
+
+    def communicate(self):
+        try:
+            out = _fake_rsync(self.cmd)
+        except NotImplementedError:
+            proc = FakeRsyncPopen.real(self.cmd, *self._kw[0], **self._kw[1])
+            res = proc.communicate()
+            self.returncode = proc.returncode
+            return res
+        except OSError as exc:
+            self.returncode = 23
+            return '', f'rsync stand-in: {exc!r}'
+        self.returncode = 0
+        return out, ''
+
+
+# ---------------------------------------------------------------------------
 # the history model
 
 
@@ -264,6 +383,11 @@ def run_case(ctx, i, rng):
         install_workflow, parse_cli_sym_dirs, reinstall_workflow)
     from cylc.flow.scripts.clean import CleanOptions
 
+    import cylc.flow.install as _inst
+    real_rsync = (i % 32 == 3)
+    _inst.Popen = FakeRsyncPopen.real if real_rsync else FakeRsyncPopen
+    ctx.count('histories_real_rsync' if real_rsync
+              else 'histories_rsync_stand_in')
     home = _HOME
     for d in ('cylc-run', 'src', 'ext1', 'ext2'):
         shutil.rmtree(os.path.join(home, d), ignore_errors=True)
